@@ -10,6 +10,7 @@ let routes =
     r "/empty*" Conn.HEmpty Conn.cors_none;
     r "/panic*" Conn.HPanic Conn.cors_none;
     r "/own*" Conn.HOwn Conn.cors_none;
+    r "/wild*" (Conn.HFixed (b "w")) { Conn.c_origin = Some (b "*"); Conn.c_methods = None; Conn.c_headers = Some (b "*") };
     r "/cors*" (Conn.HFixed (b "c"))
       { Conn.c_origin = Some (b "https://a.example, https://b.example"); Conn.c_methods = Some (b "GET, POST"); Conn.c_headers = Some (b "x-h, x-i") } ]
 
